@@ -39,7 +39,7 @@ func c12Specs() []c12Spec {
 		{ID: "R3-mem-start-join-cancel-at-once", Backend: "mem", Kind: "start-join", When: "at-once", Bound: [2]int{2, 3}},
 		{ID: "R3-file-start-join-cancel-after-scan-began", Backend: "file", Kind: "start-join", When: "after-scan-began", Bound: [2]int{2, 3}},
 		{ID: "R1-mem-scan-deliver-remove", Backend: "mem", Kind: "race", Bound: [2]int{2, 3}},
-		{ID: "R1-file-scan-deliver-remove", Backend: "file", Kind: "race", Bound: [2]int{2, 3}},
+		{ID: "R1-file-scan-deliver-remove", Backend: "file", Kind: "race", Bound: [2]int{1, 2}},
 	}
 }
 
@@ -113,13 +113,17 @@ func c12SchedScenario(c *fw.Ctx, sp c12Spec) schedScenario {
 						add("y1", "boxa", 0)
 						add("e2", "boxb", 2*time.Hour)
 						add("y2", "boxc", 0)
+						// a mailbox holding only expired messages, which receives young mail
+						// while it is being scanned
+						add("e3", "boxe", 2*time.Hour)
+						add("e4", "boxe", 3*time.Hour)
 					}
 					var scanErr error
 					scanDone := false
 					rs := storage.NewRetentionScanner(config.Storage{RetentionPeriod: time.Hour, RetentionSleep: 0}, st)
 					ths := []vsched.Thread{
 						{Name: "scanner", F: func() { scanErr = rs.DoScan(ctx); scanDone = true }},
-						{Name: "deliverer", F: func() { add("n1", "boxa", 0); add("n2", "boxd", 0) }},
+						{Name: "deliverer", F: func() { add("n3", "boxe", 0); add("n1", "boxa", 0); add("n2", "boxd", 0) }},
 						{Name: "remover", F: func() { _ = st.RemoveMessage("boxa", getID("y1")); _ = st.RemoveMessage("boxc", getID("y2")) }},
 					}
 					final = func() {
@@ -131,12 +135,12 @@ func c12SchedScenario(c *fw.Ctx, sp c12Spec) schedScenario {
 							return
 						}
 						var o []string
-						for _, k := range []struct{ key, mb string }{{"e1", "boxa"}, {"e2", "boxb"}} {
+						for _, k := range []struct{ key, mb string }{{"e1", "boxa"}, {"e2", "boxb"}, {"e3", "boxe"}, {"e4", "boxe"}} {
 							if present(k.key, k.mb) {
 								addProb("expired-survived", fmt.Sprintf("message %s in %s was expired when the scan began, nothing else removed it, yet it is still there after the scan returned nil", k.key, k.mb))
 							}
 						}
-						for _, k := range []struct{ key, mb string }{{"n1", "boxa"}, {"n2", "boxd"}} {
+						for _, k := range []struct{ key, mb string }{{"n1", "boxa"}, {"n2", "boxd"}, {"n3", "boxe"}} {
 							if getID(k.key) != "" && !present(k.key, k.mb) {
 								addProb("young-removed", fmt.Sprintf("message %s delivered to %s during the scan is younger than the cutoff but is gone", k.key, k.mb))
 							}
